@@ -1,5 +1,6 @@
 """C19 — peeking the label or fragment id agrees with decapsulation (sibling layout agreement)."""
 from framework import *
+FLOOR_R4 = 40
 
 LOF = 'gse_decap::LabelorFragId'
 GERR = 'gse_decap::GetLabelorFragIdError'
@@ -17,7 +18,7 @@ def run(ck):
         w.mem[('G', 'hdr')] = rv
     a = ck.analyse(DEC + 'get_label_or_frag_id', {'kslots': 4, 'ret_hooks': {RGH: after_hdr}})
     n = ck.count_obligations(a.obligations(), 'C19.R4')
-    ck.rule('C19.R4 panic obligations of the peek', n, 6)
+    ck.panic_rule('C19.R4 panic obligations of the peek', n, [a], FLOOR_R4)
     buf = a.arg('buffer')
     blen = buf[3]
     v_frag = variant_index(f, LOF, 'FragId')
